@@ -360,9 +360,9 @@ def ob_e(ob):
     import seqm.dynamics.tdc_hamiltonian_fd as T
 
     ob.encodes(T.compute_tdc_hamiltonian_fd)
-    ob.bound("2 trajectories, 2..6 excited states; the contraction of each state pair and every state energy are symbolic reals; geometry displacement, overlap/integral derivatives and the pair-density contraction are recorders")
+    ob.bound("2 trajectories, 2..6 (thorough: 2..9) excited states; the contraction of each state pair and every state energy are symbolic reals; geometry displacement, overlap/integral derivatives and the pair-density contraction are recorders")
     ob.assume("state energies pairwise distinct (the code divides by E_j - E_i)")
-    for ns in range(2, 7):
+    for ns in range(2, 7 if ob.tier != "thorough" else 10):
         S.reset()
         D = _tdc_assemble(T, ns)
         ob.require(isinstance(D, SymTensor) and D.a.shape == (2, ns, ns), "unexpected result of compute_tdc_hamiltonian_fd")
